@@ -35,7 +35,7 @@ def _depth_jobs(c, harness, ND, modes, D=3):
             c.add(Job(harness, [('bytes', 'd', n), ('int', m)], weight=3 ** n, opts={'scale_depth': D}))
 
 
-NUMBER_TEMPLATES = [[('D', 1), b'.', 9], [b'[', ('D', 1), b'.', 8, b']'], [b'-', ('D', 2), b'e', 7], [b'{"":', ('D', 1), b'.', ('D', 1), 6, b'}']]
+NUMBER_TEMPLATES = [[('D', 1), 8], [b'[]', 9], [b' ', 8, b'null', 8], [('D', 1), b'.', 9], [b'[', ('D', 1), b'.', 8, b']'], [b'-', ('D', 2), b'e', 7], [b'{"":', ('D', 1), b'.', ('D', 1), 6, b'}']]
 
 
 def _number_jobs(c, harness):
@@ -103,6 +103,7 @@ STRING_TEMPLATES = [
     # strings with arbitrary content inside each kind of container (the fast skipper steps over them)
     [b'{"":"', 8, b'"}'], [b'["', 8, b'"]'], [b'{"', 8, b'":0}'], [b'[{"":"', 6, b'"}]'], [b'{"":["', 6, b'"]}'],
     [b'[[', 3, b'],{', 3, b'}]'], [b'{"":{', 4, b'},"":[', 2, b']}'],
+    [b'[[[[', 1, b']]]]', 1], [b'{"":{"":{"":{"":', 1, b'}}}}'], [b'[[[[[', 2, b']]]]]'], [b'[{"a":[{"b":[', 1, b']}]}]'],
 ]
 
 
@@ -129,6 +130,9 @@ def check_C13(tier, nproc=None):
     for n in range(0, N + 1):
         c.add(Job('vH_C13_token', [('bytes', 'd', n)], weight=2 ** n))
         c.add(Job('vH_C13_literals', [('bytes', 'd', n)], weight=3 ** n))
+        if 1 <= n <= 5:
+            c.add(Job('vH_C13_literals', [('bytescap', 'd', n, 5)], weight=3 ** (n + 2)))
+            c.add(Job('vH_C13_token', [('bytescap', 'd', n, 2)], weight=2 ** (n + 2)))
         if n <= min(N - 1, 7):
             c.add(Job('vH_C13_exclusive', [('bytes', 'd', n)], weight=5 ** n, opts={'float_contract': True}))
     c.bounds = {'N': N, 'N_exclusive': min(N - 1, 7)}
@@ -175,7 +179,11 @@ def check_C09(tier, nproc=None):
     for n in range(0, N + 1):
         for obj in (False, True):
             for k in range(K):
-                c.add(Job('vH_C09', [('bytes', 'd', n), ('bool', obj), ('int', k)], weight=3 ** n))
+                c.add(Job('vH_C09', [('bytes', 'd', n), ('bool', obj), ('int', k), ('int', 0)], weight=3 ** n))
+                if n <= N - 1:
+                    # the handler fails with one of the library's own sentinel errors (a delegating handler)
+                    for ek in ((1, 2) if tier == 'quick' else (1, 2, 3, 4)):
+                        c.add(Job('vH_C09', [('bytes', 'd', n), ('bool', obj), ('int', k), ('int', ek)], weight=3 ** n))
     c.bounds = {'N': N, 'failing_call_index': list(range(K)), 'offset_with_error': 'free 64-bit value'}
     c.must_reach = ['C09.failed-call-made']
     _std(c, ['before the failing call the handler is well-behaved (0 or exact end)'])
@@ -198,6 +206,11 @@ def check_C10(tier, nproc=None):
             c.add(Job('vH_C10_scalars', [('bytes', 'd', n), ('int', m)], weight=3 ** n))
         for spare in ([0, 3] if tier == 'quick' else [0, 1, 3, 4, n + 4]):
             c.add(Job('vH_C10_strings', [('bytes', 'd', n), ('int', spare)], weight=2 ** n))
+    # a \u escape met far into a long string (reservation / capacity boundary), and a surrogate escape
+    # followed by a truncated second escape
+    for t in ([b'"\\n' + b'a' * 1017, 3, b'\\u00e9', 2, b'"'], [b'"\\ud83d\\u', 2], [b'"\\ud83d\\ud', 1, b'"'], [b'\\ud83d\\ude0'], [b'"x\\ud83d\\', 1]):
+        c.add(Job('vH_C10_strings', [('tmpl', 'd', t), ('int', 0)], weight=800))
+        c.add(Job('vH_C10_strings', [('tmpl', 'd', t), ('int', 3)], weight=800))
     # inputs whose backing array extends beyond their length (stale bytes between len and cap)
     for t in ([b'"\\u', ('hex', 4), b'"'], [b'\\u', ('hex', 4)], [b'"', 1, b'\\u', ('hex', 4)]):
         t = [((x[1], x[0]) if isinstance(x, tuple) else x) for x in t]
